@@ -87,8 +87,8 @@ def keysNodup : List (String × JVal) → Bool
 Exactly: what `flatten` accepts without calling `util.error*` or raising, and in which
 * no statement is named `block_start` / `block_end`,
 * no attribute is named `operation` / `stmt_id` / `parent_stmt_id` (they would overwrite the row's
-  own fields) or `original_stmt` (written by `flatten_stmt` itself; it would overwrite a block
-  reference),
+  own fields), `original_stmt` or `unit_id` (written by `flatten_stmt` / `add_unit_gir` themselves;
+  they would overwrite a block reference),
 * attribute objects have distinct keys (always true of a Python dict),
 * every statement is `{op: {attrs…}}` — a content that is not a dict makes `flatten_stmt` return
   `None`, after which a following `assign_stmt`/`call_stmt` raises `TypeError`;
@@ -108,7 +108,7 @@ mutual
   def wfAttrs (bodyKey : String → Bool) (op : String) : List (String × JVal) → Bool
     | [] => true
     | (k, v) :: rest =>
-      !reservedKey k && !(k == "original_stmt") &&
+      !reservedKey k && !(k == "original_stmt") && !(k == "unit_id") &&
       (match v with
        | .list xs => if isGirFormat xs || (op == "method_decl" && k == "body") then wfList bodyKey xs else true
        | .obj _ => false
